@@ -655,7 +655,7 @@ V('c13-nm-invalidoperation-leaks', 'C13', 'hl7apy/factories.py', "    except Inv
   "    except InvalidOperation:\n        raise", rule='C13-E')
 V('c13-date-format-typeerror', 'C13', 'hl7apy/utils.py', "        raise ValueError('{0} is not an HL7 valid date value'.format(value))\n\n    return fmt\n\n\ndef _get_timestamp_format",
   "        raise TypeError('{0} is not an HL7 valid date value'.format(value))\n\n    return fmt\n\n\ndef _get_timestamp_format", rule='C13-E')
-V('c13-fallback-catches-everything-strict', 'C13', 'hl7apy/factories.py', "        if Validator.is_strict(validation_level):\n            raise e\n\n        return factories['ST'](value, validation_level=validation_level)",
-  "        return factories['ST'](value, validation_level=validation_level)", rule='C13-E')
+V('c13-fallback-catches-everything-strict', 'C13', 'hl7apy/factories.py', "        if Validator.is_strict(validation_level):\n            raise e\n        # TODO",
+  "        # TODO", rule='C13-E')
 V('c16-error-handler-arg-order', 'C16', 'hl7apy/mllp.py', "        return handler_class(exc, msg, *args)", "        return handler_class(msg, exc, *args)", rule='C16-R')
 V('c16-handler-without-args', 'C16', 'hl7apy/mllp.py', "        return handler_class(msg, *args)", "        return handler_class(msg)", rule='C16-R')
